@@ -69,6 +69,7 @@ cipher_len_limit(const struct item *it)
 {
         switch (it->cipher) {
         case IMB_CIPHER_CBC:
+        case IMB_CIPHER_CFB:
                 return it->dir == IMB_DIR_ENCRYPT ? 65534 : 0;
         case IMB_CIPHER_ECB:
         case IMB_CIPHER_DES:
@@ -233,7 +234,7 @@ imbv_perturb(const struct item *it, int idx, IMB_JOB *job, struct pert *p, const
         ENTRY(c == IMB_CIPHER_DES || c == IMB_CIPHER_DES3, "cipher_len=misaligned8") { job->msg_len_to_cipher_in_bytes = it->c_len + 4; ACC1(IMB_ERR_JOB_CIPH_LEN); return 1; }
         ENTRY(has_c && cipher_len_limit(it), "cipher_len=max+1") {
                 uint64_t lim = cipher_len_limit(it);
-                unsigned blk = (c == IMB_CIPHER_DES || c == IMB_CIPHER_DES3) ? 8 : (c == IMB_CIPHER_CBC || c == IMB_CIPHER_ECB || c == IMB_CIPHER_SM4_CBC) ? 16 : 1;
+                unsigned blk = (c == IMB_CIPHER_DES || c == IMB_CIPHER_DES3) ? 8 : (c == IMB_CIPHER_CBC || c == IMB_CIPHER_CFB || c == IMB_CIPHER_ECB || c == IMB_CIPHER_SM4_CBC) ? 16 : 1;
                 job->msg_len_to_cipher_in_bytes = (lim / blk + 1) * blk;
                 if (c == IMB_CIPHER_CCM || (c == IMB_CIPHER_DOCSIS_SEC_BPI && h == IMB_AUTH_DOCSIS_CRC32))
                         job->msg_len_to_hash_in_bytes = job->msg_len_to_cipher_in_bytes + (c == IMB_CIPHER_CCM ? 0 : 8);
@@ -317,6 +318,7 @@ struct bl {
 };
 static const struct bl max_baselines[] = {
         { "aes-cbc-128", 0, 65520, IMB_DIR_ENCRYPT }, { "aes-ecb-256", 0, 65520, IMB_DIR_DECRYPT },
+        { "aes-cfb-128", 0, 65520, IMB_DIR_ENCRYPT }, { "aes-cfb-256", 0, 65520, IMB_DIR_ENCRYPT },
         { "des-cbc", 0, 65528, IMB_DIR_ENCRYPT },     { "3des-cbc", 0, 65528, IMB_DIR_DECRYPT },
         { "docsis-sec-128", 0, 65534, IMB_DIR_ENCRYPT }, { "docsis-des", 0, 65534, IMB_DIR_DECRYPT },
         { "zuc-eea3-128", 0, 8188, IMB_DIR_ENCRYPT }, { "sm4-cbc", 0, 65520, IMB_DIR_ENCRYPT },
